@@ -619,6 +619,58 @@ func stress(args []string) {
 		}(gi)
 	}
 	wg.Wait()
+	// simultaneous FIRST runs: a machine nobody has run yet is run for the first time by several goroutines at once (whatever
+	// an instruction sets up lazily on its first execution is then set up under contention); the oracle is a twin machine
+	// compiled from the same text and run alone, so the machine under test is never warmed up
+	nfirst := 0
+	for r := 0; r < *n/4+8; r++ {
+		u := strconv.Itoa(seed*1000 + r)
+		var e string
+		switch r % 5 {
+		case 0:
+			e = "a[k='" + u + "'][j=current()/z][m='q']/b"
+		case 1:
+			e = "/a[m='" + u + "'][k=../y]/c[j='" + u + "']/d = vmulti"
+		case 2:
+			e = "deref(a[k='" + u + "'])/../b[j='" + u + "'][k=1]"
+		case 3:
+			e = "concat(a[k='" + u + "'][j='" + u + "x']/b, translate('" + u + "', '0123456789', 'abcdefghij'))"
+		default:
+			e = "count(a[kk='" + u + "'][k='" + u + "'][j='" + u + "']) > 0 or a[k='" + u + "'][j=2][m=3]/b = '" + u + "'"
+		}
+		twin, err1, pan1 := compileRaw(e)
+		m, err2, pan2 := compileRaw(e)
+		if err1 != nil || pan1 != nil || err2 != nil || pan2 != nil {
+			report(ConcOut{0, r, "compilation of " + e + " failed", "first-compile", fmt.Sprint(err1, pan1, err2, pan2)})
+			continue
+		}
+		ref := plainRun(twin)
+		start := make(chan struct{})
+		res := make([]RunResult, 8)
+		var fw sync.WaitGroup
+		for gi := range res {
+			fw.Add(1)
+			go func(gi int) {
+				defer fw.Done()
+				defer func() {
+					if p := recover(); p != nil {
+						res[gi].Err = fmt.Sprint("PANIC ", p)
+					}
+				}()
+				<-start
+				res[gi] = plainRun(m)
+			}(gi)
+		}
+		close(start)
+		fw.Wait()
+		nfirst++
+		for gi := range res {
+			if !sameRun(res[gi], ref) {
+				report(ConcOut{0, r, "one of eight simultaneous first runs of " + e + " differs from the run of a twin machine in isolation", "first-runs", short(res[gi]) + " vs " + short(ref)})
+				break
+			}
+		}
+	}
 	for k := range machines { // history independence after thousands of runs
 		if r := plainRun(machines[k]); !sameRun(r, refs[k]) {
 			report(ConcOut{0, 0, "a later run of " + exprs[k] + " differs from the first one", "run-history", short(r)})
@@ -635,5 +687,5 @@ func stress(args []string) {
 			break
 		}
 	}
-	fmt.Printf("{\"goroutines\":%d,\"iterations\":%d,\"lookups\":%d,\"fresh_machines\":%d,\"violations\":%d}\n", *g, *n, len(lookups), nfresh.Load(), nviol)
+	fmt.Printf("{\"goroutines\":%d,\"iterations\":%d,\"lookups\":%d,\"fresh_machines\":%d,\"simultaneous_first_runs\":%d,\"violations\":%d}\n", *g, *n, len(lookups), nfresh.Load(), nfirst, nviol)
 }
